@@ -80,6 +80,8 @@ def tlc(module, cfg, workers=1, env=None, timeout=1800, simulate=None, depth=Non
     meta = os.path.join(OUT, "tlc", "%s-%d-%d" % (module, os.getpid(), _tlc_counter[0]))
     os.makedirs(meta, exist_ok=True)
     jopts = "-Xss1g -Xmx%s" % xmx
+    if workers == 1:
+        jopts += " -XX:ParallelGCThreads=2 -XX:CICompilerCount=2"
     if deque:
         jopts += " -Dtlc2.tool.queue.IStateQueue=StateDeque"
     e = dict(os.environ)
